@@ -429,7 +429,10 @@ fn run_len(len: usize, ctx: &mut Ctx, only: Option<String>) {
     let word: Vec<X> = (0..len).map(|i| Some(10.0 + i as f64)).collect();
     // long series: reduced back-end set (two ring offsets, two strides, two chunkings) and the windows
     // around the sizes where a narrow index or a size-dependent fast path would change behaviour
-    let (level, ws) = if len > 16 {
+    let (level, ws) = if len > 1000 {
+        // very long series (a hot loop processed in fixed-size blocks changes behaviour only here): few windows
+        (0u8, Some(vec![1usize, 7, 40]))
+    } else if len > 16 {
         let mut ws = vec![1usize, 2, 15, 16, 17, 31, 32, 33, 127, 128, 129, 255, 256, 257, len - 1, len, len + 1, len + 3];
         ws.retain(|w| *w <= len + 3);
         ws.sort();
@@ -462,7 +465,7 @@ fn main() {
         std::process::exit(finish_replay(&run, &stored, ctx));
     }
     let mut lens: Vec<usize> = (0..=max_len).collect();
-    lens.extend(if run.quick() { vec![40, 270] } else { vec![24, 40, 70, 130, 270, 300] });
+    lens.extend(if run.quick() { vec![40, 270, 1030] } else { vec![24, 40, 70, 130, 270, 300, 1030, 2600, 4100] });
     let total = par_items(&lens, run.threads, |len, ctx| run_len(*len, ctx, None));
     let meta = Meta {
         rule: "protocol machine (driver x input back end x output container x out-path x len x w): the stateful callback records (call#, arguments); the recorded trace must conform event by event to the explicit model: len calls, position i gets the new element(s) at i, the element/index at i-w+1 when i>=w-1, 'nothing' when i<min(w,len)-1, unconstrained when w>len and i=len-1; slice forms get exactly x[max(0,i-w+1)..=i]; out[i] = result of call i. Elements 10+i / 100+i are distinct so identity is observable. Non-trivial = distinct (driver, back end, output, path, len, w) runs.".into(),
